@@ -382,6 +382,9 @@ fn size_channel<C: Cs>(ctx: &Ctx, idx: u64) {
     let per = ctx.t(4usize, 12usize);
     // kind -> field class -> candidate -> (min bits, max bits)
     let mut seen: BTreeMap<(String, String), BTreeMap<String, (u32, u32)>> = BTreeMap::new();
+    // (kind, "fieldA==fieldB") -> candidate -> number of proofs in which the two fields coincide; proofs per (kind, candidate)
+    let mut eq_seen: BTreeMap<(String, String), BTreeMap<String, u32>> = BTreeMap::new();
+    let mut eq_total: BTreeMap<(String, String), u32> = BTreeMap::new();
     for (cn, cv) in &candidates {
         for k in 0..per {
             let u: Vec<usize> = if k % 2 == 0 { vec![1] } else { vec![0, 1] };
@@ -399,6 +402,29 @@ fn size_channel<C: Cs>(ctx: &Ctx, idx: u64) {
                 views.push(("zkpok", serde_json::to_value(&z).unwrap()));
             }
             for (kind, j) in views {
+                // pairs of large fields with equal values, by field class
+                {
+                    let kk = format!("{kind}/U{}", u.len());
+                    *eq_total.entry((kk.clone(), cn.to_string())).or_insert(0) += 1;
+                    let mut by_value: HashMap<Integer, Vec<String>> = HashMap::new();
+                    for (p, v) in leaves(&j) {
+                        if v.significant_bits() >= 128 {
+                            by_value.entry(v).or_default().push(path_class(&p));
+                        }
+                    }
+                    let mut pairs: std::collections::BTreeSet<String> = Default::default();
+                    for (_, ps) in by_value {
+                        for a in 0..ps.len() {
+                            for b2 in a + 1..ps.len() {
+                                let (x, y) = if ps[a] <= ps[b2] { (&ps[a], &ps[b2]) } else { (&ps[b2], &ps[a]) };
+                                pairs.insert(format!("{x}=={y}"));
+                            }
+                        }
+                    }
+                    for pr in pairs {
+                        *eq_seen.entry((kk.clone(), pr)).or_default().entry(cn.to_string()).or_insert(0) += 1;
+                    }
+                }
                 for (p, v) in leaves(&j) {
                     // position 1 is the candidate's: per-attribute arrays are indexed by rank within U
                     let e = seen.entry((format!("{kind}/U{}", u.len()), p)).or_default().entry(cn.to_string()).or_insert((u32::MAX, 0));
@@ -410,6 +436,25 @@ fn size_channel<C: Cs>(ctx: &Ctx, idx: u64) {
             ctx.count("size_channel_proofs", 2);
         }
     }
+    // equality patterns: which pairs of fields carry the same value. A pair that coincides in every proof of one
+    // candidate and in no proof of another identifies the candidate without any arithmetic.
+    for ((kind, pair), by_cand) in &eq_seen {
+        let total = |c: &str| eq_total.get(&(kind.clone(), c.to_string())).copied().unwrap_or(0);
+        for (ca, na) in by_cand {
+            if *na < total(ca) || *na < 2 {
+                continue;
+            }
+            for (cb, _) in &candidates {
+                if by_cand.get(*cb).copied().unwrap_or(0) == 0 && total(cb) >= 2 && ca != cb {
+                    ctx.violation(
+                        &format!("C17:{}:field-equality-identifies-candidate/{}", kind.split('/').next().unwrap(), pair),
+                        json!({"proof":kind,"equal_fields":pair,"always_for_candidate":ca,"never_for_candidate":cb}),
+                    );
+                }
+            }
+        }
+    }
+    ctx.count("size_channel_equal_field_pairs_seen", eq_seen.len() as u64);
     let mut fields = 0u64;
     for ((kind, path), by_cand) in &seen {
         fields += 1;
